@@ -35,6 +35,17 @@ def gen_c13(seed, fam=None, policy=None):
     choices = [("step", h) for h in step_faults] + ([("get_data", h) for h in data_faults] if has_out else [])
     req, how = rng.choice(choices)
     fault = {"sid": sid, "k": rng.randint(1, 3), "req": req, "how": how}
+    if seed % 5 == 4:
+        # the same in real-time mode (virtual clock, instant replies), where a simulator can schedule steps for itself with
+        # set_event: the faulting simulator does so in the step whose reply is malformed (or earlier), so further steps of
+        # it are already scheduled when the reply is validated
+        rt = dict(scn, rt={"rt_factor": 1.0, "time_resolution": 1.0, "instant": True, "strict": False})
+        rt["until"] = max(rt["until"], 4)
+        fault = dict(fault, event=rng.choice([1, 1, 2, 0]))  # 0: no set_event call in the faulting step
+        beh = {"kind": "faulty_rt", "fault": fault, "K": 1.0, "durations": [0], "p_future": 0.0,
+               "events": {sid: {"p": rng.choice([0.0, 0.5]), "offsets": [1, 2]}}}
+        yield {"id": [seed, "rt", fault], "scn": rt, "seed": seed, "behaviour": beh, "policy": {"kind": "timer"}}
+        return
     yield {"id": [seed, fault], "scn": scn, "seed": seed, "behaviour": {"kind": "faulty", "fault": fault}, "policy": dict(policy or {})}
 
 
@@ -113,7 +124,7 @@ PROFILES = {
     "C02": [("random", {"fam": {"p_async": 0.1}, "behaviour": {"p_future": 0.4, "ev_next": [None, 1, 2, 3]}}),
             ("random", {"fam": {"types": ["event-based", "hybrid"], "until": (3, 5)}, "behaviour": {"p_future": 0.5, "future": [0, 1, 2, 3]}})],
     "C03": [("random", {"fam": {"shifts": (0, 0, 1, 2, 3), "until": (3, 5), "p_two_entities": 0.4}}),
-            ("random", {"fam": {"groups": False, "nsims": (2, 3), "until": (3, 6)}, "behaviour": {"tb_next": [1, 2, 4], "p_future": 0.3}})],
+            ("random", {"fam": {"groups": False, "nsims": (2, 3), "until": (3, 6)}, "behaviour": {"tb_next": [1, 2, 4], "p_future": 0.3, "p_none": 0.2}})],
     "C05": [("random", {"fam": {"nsims": (2, 5), "nconns": (1, 7), "until": (2, 5), "p_async": 0.1}}),
             ("random", {"fam": {"shifts": (0, 1, 2, 3)}, "behaviour": {"p_future": 0.5, "future": [0, 1, 2, 3]}, "policy": {"early": 0.6}})],
     "C07": [("random", {"fam": {"types": ["event-based", "hybrid", "hybrid"], "until": (3, 5)}, "behaviour": {"ev_next": [None, 1, 2, 3]}}),
